@@ -213,9 +213,10 @@ fn vk_c01_depth_passed_unchanged() {
     assert!(o.min_seen == depth && o.max_seen == depth, "C01.depth.passed_unchanged_to_every_nested_call");
 }
 
+// (unwind 70: a refactoring may pull a real operator routine into the lifted arm; its longest loop is the 64-step exponentiation)
 //@proof {'props': ['C07', 'C01'], 'tier': 'quick', 'timeout': 900, 'uses': ['dispatch_d', 'pin_d'], 'bounds': 'one evaluator step on each of the 8 expression kinds (symbolic); compound-assignment operator among the 11 (symbolic); sub-evaluation results any i64; depth 0..=MAX symbolic', 'desc': 'dispatch contract of eval_expr_impl: a literal is itself; a reference is dereferenced; ?: evaluates the condition then exactly the selected branch; x = e evaluates e then stores that value; x op= e applies op to (a reference to x, the *unevaluated* e) - so x is read before any side effect of e - then stores the result once; ++/-- go to the increment routine; every nested call carries the caller\'s depth'}
 #[kani::proof]
-#[kani::unwind(3)]
+#[kani::unwind(70)]
 fn vk_c07_dispatch_contract() {
     let depth = any_depth();
     let mut o = DOracle::new(depth);
